@@ -886,6 +886,8 @@ def run_c19(ctx):
     corpus_shape(ctx)
     import r_codec
     r_codec.errprop_corpus(ctx)
+    import r_panic
+    r_panic.run_train(ctx)
 
 
 def run_c13(ctx):
